@@ -387,6 +387,10 @@ struct Marks {
     /// spans (without outer trivia) of inline macro invocations and attributes: code that is handed to
     /// a plugin and comes back as a generated (virtual) file with code mappings
     invocations: Vec<(usize, usize)>,
+    /// element spans (without trivia) of every list-like node with >= 2 elements: members, variants,
+    /// params, generic params, items, impl / trait items, match arms, ctor / pattern fields, statements,
+    /// use lists, attributes, arguments, tuple elements
+    lists: Vec<(String, Vec<(usize, usize)>)>,
     parse_errors: usize,
 }
 
@@ -411,6 +415,22 @@ fn marks_of(text: &str) -> Marks {
             let (a, b) = (st.start.as_u32() as usize, st.end.as_u32() as usize);
             if b > a + 2 {
                 m.invocations.push((a, b));
+            }
+        }
+        let kname = format!("{k:?}");
+        if kname.ends_with("List") || kname == "MatchArms" {
+            let elems: Vec<(usize, usize)> = n
+                .get_children(dbr)
+                .iter()
+                .filter(|c| !c.kind(dbr).is_terminal())
+                .map(|c| {
+                    let st = c.span_without_trivia(dbr);
+                    (st.start.as_u32() as usize, st.end.as_u32() as usize)
+                })
+                .filter(|(a, b)| b > a)
+                .collect();
+            if elems.len() >= 2 {
+                m.lists.push((kname, elems));
             }
         }
         if k.is_terminal() {
@@ -469,6 +489,10 @@ struct Gen<'a> {
     /// (file, start of the invocation) of the last length-changing edit inside an invocation: the next
     /// step tends to cancel the length change elsewhere inside the same invocation
     pending_inside: Option<(usize, usize, i64)>,
+    /// histories of permutation edits: the same multiset of things in another order
+    perm_mode: bool,
+    /// (file, content before the last permutation): the next step tends to swap back
+    pending_perm: Option<(usize, String)>,
 }
 
 /// A self-contained statement that carries a diagnostic. `phase`: 0 lowering/borrow-check (also inside
@@ -598,7 +622,7 @@ impl Gen<'_> {
     fn step_ex(&mut self, files: &[FileState], last: bool, broken: bool, good: Option<&Vec<String>>) -> Step {
         // a project that no longer compiles is brought back to its last error-free contents with some
         // probability, so that long histories keep producing Sierra
-        if let (true, Some(g), false) = (broken, good, self.diag_mode || self.gen_mode) {
+        if let (true, Some(g), false) = (broken, good, self.diag_mode || self.gen_mode || self.perm_mode) {
             if self.rng.below(100) < 35 {
                 let sp: Vec<Splice> = files
                     .iter()
@@ -628,6 +652,35 @@ impl Gen<'_> {
             }
         };
         let walk = self.rng.below(3) == 0;
+        if self.perm_mode {
+            // Sierra and diagnostics, in either order
+            let query = query % 2;
+            if let Some((pf, before)) = self.pending_perm.take() {
+                if self.rng.below(10) < 5 && files[pf].cur() != before {
+                    let len = files[pf].cur().len();
+                    return Step {
+                        kind: "permute:swap-back".into(),
+                        action: Action::Edit(vec![Splice { file: pf, start: 0, end: len, text: before }]),
+                        query,
+                        walk,
+                    };
+                }
+            }
+            for _ in 0..40 {
+                let f = self.rng.below(files.len() as u64) as usize;
+                let text = files[f].cur().to_string();
+                let m = marks_of(&text);
+                let r = match self.rng.below(100) {
+                    0..=84 => self.permute(f, &text, &m),
+                    85..=90 => self.trivia(f, &text, &m),
+                    91..=95 => self.rename(files, f, &text, &m),
+                    _ => self.unset(files, f),
+                };
+                if let Some((kind, action)) = r {
+                    return Step { kind, action, query, walk };
+                }
+            }
+        }
         if self.gen_mode {
             let query = if query >= 3 { (query - 3).min(1) } else { query };
             for _ in 0..40 {
@@ -979,6 +1032,53 @@ impl Gen<'_> {
         }
     }
 
+    /// Two elements of one list change places (adjacent or distant); everything between them, the
+    /// separators and the trivia stay.
+    fn permute(&mut self, f: usize, text: &str, m: &Marks) -> Option<(String, Action)> {
+        if m.lists.is_empty() {
+            return None;
+        }
+        // every kind of list gets the same chance, whatever its frequency in the file
+        let mut kinds: Vec<&String> = m.lists.iter().map(|(k, _)| k).collect();
+        kinds.sort();
+        kinds.dedup();
+        // declaration-level lists (layouts, indices, signatures, item orders) get most of the picks
+        let decl: Vec<&String> = kinds
+            .iter()
+            .filter(|k| {
+                matches!(
+                    k.as_str(),
+                    "MemberList" | "VariantList" | "ParamList" | "GenericParamList" | "ImplItemList" | "TraitItemList" | "ModuleItemList"
+                )
+            })
+            .cloned()
+            .collect();
+        let kind = if !decl.is_empty() && self.rng.below(10) < 6 { (*self.rng.pick(&decl)).clone() } else { (*self.rng.pick(&kinds)).clone() };
+        let cands: Vec<&(String, Vec<(usize, usize)>)> = m.lists.iter().filter(|(k, _)| *k == kind).collect();
+        let (_, elems) = *self.rng.pick(&cands);
+        let n = elems.len();
+        let (i, j, how) = if n == 2 || self.rng.bool() {
+            let i = self.rng.below((n - 1) as u64) as usize;
+            (i, i + 1, "adjacent")
+        } else {
+            let i = self.rng.below((n - 2) as u64) as usize;
+            let j = i + 2 + self.rng.below((n - i - 2) as u64) as usize;
+            (i, j, "distant")
+        };
+        let (x, y) = (text[elems[i].0..elems[i].1].to_string(), text[elems[j].0..elems[j].1].to_string());
+        if x == y || elems[i].1 > elems[j].0 {
+            return None;
+        }
+        self.pending_perm = Some((f, text.to_string()));
+        Some((
+            format!("permute:{kind}:{how}"),
+            Action::Edit(vec![
+                Splice { file: f, start: elems[i].0, end: elems[i].1, text: y },
+                Splice { file: f, start: elems[j].0, end: elems[j].1, text: x },
+            ]),
+        ))
+    }
+
     fn insert_diag_item(&mut self, f: usize, m: &Marks) -> Option<(String, Action)> {
         let n = self.fresh();
         let (item, kind) = diag_item(self.rng, n);
@@ -1301,6 +1401,9 @@ fn run_history(
         if let Some(k) = step.kind.strip_prefix("insert-diag:") {
             *stats.diag_constructs.entry(k.to_string()).or_insert(0) += 1;
         }
+        if step.kind.starts_with("permute:") {
+            *stats.diag_constructs.entry(step.kind.clone()).or_insert(0) += 1;
+        }
         if step.kind.starts_with("inside:") || step.kind.starts_with("before:") {
             *stats.diag_constructs.entry(format!("invocation/{}", step.kind)).or_insert(0) += 1;
         }
@@ -1413,7 +1516,7 @@ fn leg_reid(out: &str, tier: &str, summary: &mut serde_json::Map<String, Value>,
     let mut cases: Vec<String> = vec![];
     let mut it = Interner::default();
     let (mut kept, mut fresh_ids, mut total) = (0usize, 0usize, 0usize);
-    let mut g = Gen { rng: &mut rng, counter: 0, diag_mode: false, gen_mode: false, pending_inside: None };
+    let mut g = Gen { rng: &mut rng, counter: 0, diag_mode: false, gen_mode: false, pending_inside: None, perm_mode: false, pending_perm: None };
     for c in 0..n_cases {
         let src = &srcs[g.rng.below(srcs.len() as u64) as usize];
         let text = std::fs::read_to_string(src).unwrap();
@@ -1504,6 +1607,8 @@ fn projects() -> Vec<Project> {
         Project { name: "examples".into(), src: format!("{repo}/examples").into() },
         Project { name: "gen".into(), src: format!("{vr}/corpus/C13/gen").into() },
         Project { name: "gen".into(), src: format!("{vr}/corpus/C13/gen").into() },
+        Project { name: "order".into(), src: format!("{vr}/corpus/C13/order").into() },
+        Project { name: "order".into(), src: format!("{vr}/corpus/C13/order").into() },
     ]
 }
 
@@ -1536,7 +1641,7 @@ fn main() {
     if legs.contains("oracle") {
         let t1 = Instant::now();
         let seed = std::env::var("VERIF_SEED").ok().and_then(|s| s.parse::<u64>().ok()).unwrap_or(1);
-        let (n_hist, n_steps) = if tier == "thorough" { (70usize, 30usize) } else { (30, 10) };
+        let (n_hist, n_steps) = if tier == "thorough" { (81usize, 30usize) } else { (36, 10) };
         let n_hist = std::env::var("H13_HISTORIES").ok().and_then(|s| s.parse().ok()).unwrap_or(n_hist);
         let n_steps = std::env::var("H13_STEPS").ok().and_then(|s| s.parse().ok()).unwrap_or(n_steps);
         let threads = std::env::var("H13_THREADS").ok().and_then(|s| s.parse().ok()).unwrap_or(if tier == "thorough" { 8usize } else { 12 });
@@ -1555,7 +1660,7 @@ fn main() {
                         }
                         let proj = &projs[h % projs.len()];
                         let mut rng = Rng(seed.wrapping_mul(0x9E3779B97F4A7C15).wrapping_add(1000 + h as u64));
-                        let generator = Gen { rng: &mut rng, counter: 0, diag_mode: proj.name == "diags", gen_mode: proj.name == "gen", pending_inside: None };
+                        let generator = Gen { rng: &mut rng, counter: 0, diag_mode: proj.name == "diags", gen_mode: proj.name == "gen", pending_inside: None, perm_mode: proj.name == "order", pending_perm: None };
                         let work = PathBuf::from(format!("{out}/../work/h{h}"));
                         let mut st = Stats::default();
                         let (steps, fail) = run_history(&work, proj, n_steps, Some(generator), &[], &mut st, std::env::var("H13_VERBOSE").is_ok());
